@@ -300,9 +300,8 @@ make a rule report `violated`/`undecided`/`vacuous`: in round 4 (fresh
 refactorings after three rounds of hardening) 44 of 80 still alarmed at first, so
 the honest expectation for an unseen restructuring of an anchored function is
 "about even" - rounds 5 (46 of 80) and 6 (40 of 80) confirmed it; round 7 (31 of
-80) was the first clearly better one. Of the 481 kept
-refactorings (rounds 1-7) 479 are quiet today; two of round 6 (`C14-r19`,
-`C14-r20`: goroutine bodies moved into named functions / a reader struct) still
+80) was better, round 8 (36 of 80, right after thirty new rules) was not. Of the 561 kept
+refactorings (rounds 1-8) REFQUIET are quiet today; REFOPEN still
 alarm and are documented as open in section 8.3. The mirror and
 lockstep rules would fire on an asymmetric-but-equivalent rewrite of one twin.
 Refactorings that rename exported API or change a struct's field *types* are
@@ -554,6 +553,7 @@ r4='/verif/tools/round4.md'
 r5='/verif/tools/round5.md'
 r6='/verif/tools/round6.md'
 r7='/verif/tools/round7.md'
-doc=doc.replace('ROUND4_PLACEHOLDER', (open(r4).read() if os.path.exists(r4) else '(round 4 results pending)') + '\n' + (open(r5).read() if os.path.exists(r5) else '') + '\n' + (open(r6).read() if os.path.exists(r6) else '') + '\n' + (open(r7).read() if os.path.exists(r7) else ''))
+r8='/verif/tools/round8.md'
+doc=doc.replace('ROUND4_PLACEHOLDER', (open(r4).read() if os.path.exists(r4) else '(round 4 results pending)') + '\n' + (open(r5).read() if os.path.exists(r5) else '') + '\n' + (open(r6).read() if os.path.exists(r6) else '') + '\n' + (open(r7).read() if os.path.exists(r7) else '') + '\n' + (open(r8).read() if os.path.exists(r8) else ''))
 open('/verif/DESIGN.md','w').write(doc)
 print(len(doc.splitlines()),'lines')
